@@ -1489,7 +1489,6 @@ impl<D: AsyncDB, M: MakeConnection<Conn = D>> Runner<D, M> {
             filename: String,
             outfilename: PathBuf,
             outfile: File,
-            halt: bool,
         }
 
         let filename = filename.as_ref();
@@ -1500,15 +1499,15 @@ impl<D: AsyncDB, M: MakeConnection<Conn = D>> Runner<D, M> {
             filename: filename.to_string_lossy().to_string(),
             outfilename,
             outfile,
-            halt: false,
         }];
+        // Once a `halt` is seen, no later record is run, in whichever file it lies: a run stops there too.
+        let mut halt = false;
 
         for record in records {
             let Item {
                 filename,
                 outfilename,
                 outfile,
-                halt,
             } = stack.last_mut().unwrap();
 
             match &record {
@@ -1518,7 +1517,6 @@ impl<D: AsyncDB, M: MakeConnection<Conn = D>> Runner<D, M> {
                         filename: filename.clone(),
                         outfilename,
                         outfile,
-                        halt: false,
                     });
                 }
                 Record::Injected(Injected::EndInclude(_)) => {
@@ -1526,12 +1524,12 @@ impl<D: AsyncDB, M: MakeConnection<Conn = D>> Runner<D, M> {
                     stack.pop();
                 }
                 _ => {
-                    if *halt {
+                    if halt {
                         writeln!(outfile, "{record}")?;
                         continue;
                     }
                     if matches!(record, Record::Halt { .. }) {
-                        *halt = true;
+                        halt = true;
                         writeln!(outfile, "{record}")?;
                         tracing::info!(
                             "halt record found, all following records will be written AS IS"
@@ -1557,7 +1555,6 @@ impl<D: AsyncDB, M: MakeConnection<Conn = D>> Runner<D, M> {
             filename,
             outfilename,
             outfile,
-            halt: _,
         } = stack.last_mut().unwrap();
         override_with_outfile(filename, outfilename, outfile)?;
 
